@@ -449,6 +449,7 @@ func c10Run(t *testing.T, cfg c10Config) c10Outcome {
 			d, _, _ := w.NewDialer(sim.ClientKind{Name: "spec", U: true, Spec: func() *quic.QUICSpec { return spec }})
 			fl = sim.CaptureFlight(w, d, &quic.Config{}, 1500*time.Millisecond)
 			d.Close()
+			w.CloseEndpoints()
 		})
 		if !ok {
 			out.fail = explore.Failf(cfg.id()+":bubble-failed", "bubble did not terminate cleanly")
